@@ -300,7 +300,10 @@ def read_rows(sched, log, task_ids, handle_ids):
         rows.add(sx([Raw("A"), ab.h(a.call_hash), a.arg_position if a.arg_position is not None else Raw("k" + str(a.arg_key)), ab.hv(a.value_hash)]))
     for e in ses.query(CallEdge).all():
         rows.add(sx([Raw("E"), ab.h(e.parent_id), ab.h(e.child_id)]))
-    return rows
+    # the digests themselves (equal pre-images up to the order of children must have equal digests: that is what
+    # sorted() in hash_call_node is for); compared between runs only
+    digests = {"N" + cn.call_hash for cn in ses.query(CallNode).all()} | {"A" + a.arg_hash for a in ses.query(Argument).all()}
+    return rows, digests
 
 
 def model_rows(reply):
@@ -343,10 +346,10 @@ def run_once(env, expr_fn, limits_cfg, ctl, task_ids, handle_ids, taps=None):
         status, payload = ctl.run(sched, expr_fn())
         if status == "ok":
             val = "i%d" % payload if isinstance(payload, int) and not isinstance(payload, bool) else "?" + type(payload).__name__
-            rows = read_rows(sched, log, task_ids(), handle_ids)
+            rows, obs["digests"] = read_rows(sched, log, task_ids(), handle_ids)
         else:
             val = status + ":" + (type(payload).__name__ if status == "err" else str(payload)[:60])
-            rows = set()
+            rows, obs["digests"] = set(), set()
         close_sched(sched)
     os.remove(path)
     return status, val, rows, obs
@@ -451,10 +454,14 @@ def explore(ctx, env, label, kind, spec_json, expr_fn, task_ids, handle_ids, mod
             only_m = sorted(rec["model_rows"] - rec["rows"])[:3]
             only_r = sorted(rec["rows"] - rec["model_rows"])[:3]
             ctx.mismatch("recorded call graph differs from the model", case=case, model=only_m, impl=only_r)
-        if rec["value"] != base["value"] or rec["rows"] != base["rows"]:
-            sig = classify(base, rec)
+        if rec["value"] != base["value"] or rec["rows"] != base["rows"] or rec["obs"]["digests"] != base["obs"]["digests"]:
+            # a difference both of whose sides the model predicts (from the observed entry order / forked-job state) is one
+            # of the recorded findings; anything else is new
+            explained = (rec["rows"] == rec["model_rows"] and base["rows"] == base["model_rows"] and rec["rows"] != base["rows"])
+            sig = classify(base, rec) if explained else SIG_NEW
             ctx.violation(sig, "the same workflow records a different %s under another completion order / limit configuration"
-                          % ("value" if rec["value"] != base["value"] else "call graph"),
+                          % ("value" if rec["value"] != base["value"] else ("call graph" if rec["rows"] != base["rows"] else
+                                                                                  "set of call/argument hash digests for the same pre-images")),
                           case=dict(case, other=dict(limits=base["limits"], schedule=base["schedule"])),
                           expected=dict(value=base["value"], rows_only_there=sorted(base["rows"] - rec["rows"])[:3]),
                           actual=dict(value=rec["value"], rows_only_here=sorted(rec["rows"] - base["rows"])[:3]), kind="schedule")
